@@ -968,6 +968,10 @@ pub fn cse_cases(sigil: Option<&'static str>, thorough: bool) -> Vec<Case> {
     let e0s: Vec<(&str, E)> = vec![("first-of-B", E::prim("f", vec![E::v("B")])), ("B", E::v("B"))];
     for (sn, sf) in &shared {
         for (en, e0) in &e0s {
+            // quick tier: the raising base expression with `+` and `c`, the plain one with sha256
+            if !thorough && ((*en == "B") != (*sn == "sha")) {
+                continue;
+            }
             for binder in ["assign", "assign-inline", "assign-lambda", "let*", "nested-let"] {
                 for ctx in ["root", "under-c", "in-if-arm", "twice-in-list", "in-defun-under-c"] {
                     let v = || E::v("V");
